@@ -48,7 +48,7 @@ def run(tier):
             parent = crate.get(exp.module)
             if parent is not None and parent["kind"] != "Mod":
                 continue  # module declared inside a function body: no module parent to re-export into
-            entries = [c for c in (parent or {}).get("children", []) if c["name"] == exp.attr.trait_name and c["res_kind"] == "Trait"]
+            entries = [c for c in (parent or {}).get("children", []) if c["name"] == (last_seg(v.trait["path"]) if "$" in exp.attr.trait_name else exp.attr.trait_name) and c["res_kind"] == "Trait"]
             uses = [d for d in exp.defs if d["kind"] == "Use" and d.get("parent") == exp.module]
             if not entries or not uses:
                 rep.add("R-REEXPORT", key0 + " reexport", "the trait is not re-exported into the module's parent", where=exp.label())
